@@ -36,6 +36,74 @@ theorem lowerStr_idem (s : String) : lowerStr (lowerStr s) = lowerStr s := by
   intro c _
   exact toLower_idem c
 
+theorem canonName_idem (n : String) : canonName (canonName n) = canonName n := by
+  unfold canonName
+  split
+  · have : lowerStr "self" = "self" := by decide
+    simp [this]
+  · simp
+
+theorem stripZeros_idem : ∀ l, stripZeros (stripZeros l) = stripZeros l := by
+  intro l
+  fun_induction stripZeros l with
+  | case1 d ds ih => exact ih
+  | case2 ds h =>
+    unfold stripZeros
+    split
+    · rename_i d ds'; exact absurd rfl (h d ds')
+    · rfl
+
+theorem stripZeros_all (p : Char → Bool) : ∀ l, l.all p = true → (stripZeros l).all p = true := by
+  intro l
+  fun_induction stripZeros l with
+  | case1 d ds ih => intro h; apply ih; simp [List.all_cons] at h ⊢; exact h.2
+  | case2 ds h => intro h'; exact h'
+
+theorem stripZeros_cons : ∀ d ds, ∃ e es, stripZeros (d :: ds) = e :: es := by
+  intro d ds
+  induction ds generalizing d with
+  | nil => exact ⟨d, [], by unfold stripZeros; split <;> simp_all⟩
+  | cons x xs ih =>
+    unfold stripZeros
+    split
+    · rename_i d' ds' heq; cases heq; exact ih x
+    · exact ⟨_, _, rfl⟩
+
+theorem canonRelL_fix (l l' : List Char) (h : canonRelL l = some l') : canonRelL l' = some l' := by
+  unfold canonRelL at h
+  split at h
+  · rename_i c d ds
+    split at h
+    · rename_i hc
+      simp only [Bool.and_eq_true] at hc
+      cases h
+      obtain ⟨e, es, he⟩ := stripZeros_cons d ds
+      have hall := stripZeros_all Char.isDigit (d :: ds) hc.2
+      have hid := stripZeros_idem (d :: ds)
+      rw [he] at hall hid ⊢
+      unfold canonRelL
+      have h1 : isRelHead 'R' = true := by decide
+      simp only [h1, hall, Bool.and_self, ↓reduceIte, hid]
+    · cases h
+  · cases h
+
+theorem canonRel_idem (s : String) : canonRel (canonRel s) = canonRel s := by
+  unfold canonRel
+  cases h : canonRelL s.toList with
+  | none => simp only [h]
+  | some l => simp only [String.toList_ofList, canonRelL_fix _ _ h]
+
+theorem canonStep_idem (s : Step) : canonStep (canonStep s) = canonStep s := by
+  simp [canonStep, canonRel_idem]
+
+theorem canonChain_idem (ch : List Step) : (ch.map canonStep).map canonStep = ch.map canonStep := by
+  rw [List.map_map]; apply List.map_congr_left; intro s _; exact canonStep_idem s
+
+theorem canonMeaning_idem (ctx : Ctx) (l : String) (m : Option String) :
+    canonMeaning ctx l (canonMeaning ctx l m) = canonMeaning ctx l m := by
+  unfold canonMeaning
+  cases ctx.events.lookup l <;> rfl
+
 theorem canonKind_idem (ctx : Ctx) (k : CallKind) (nsp : String) :
     canonKind ctx (canonKind ctx k nsp) nsp = canonKind ctx k nsp := by
   cases k <;> simp only [canonKind]
@@ -79,22 +147,22 @@ mutual
     | .ctl => by simp [canonStmt]
     | .create _ _ => by simp [canonStmt]
     | .createNV _ => by simp [canonStmt]
-    | .delete _ => by simp [canonStmt]
-    | .relate _ _ _ _ => by simp [canonStmt]
-    | .relateU _ _ _ _ _ => by simp [canonStmt]
-    | .unrelate _ _ _ _ => by simp [canonStmt]
-    | .unrelateU _ _ _ _ _ => by simp [canonStmt]
+    | .delete _ => by simp [canonStmt, canonName_idem]
+    | .relate _ _ _ _ => by simp [canonStmt, canonName_idem, canonRel_idem]
+    | .relateU _ _ _ _ _ => by simp [canonStmt, canonName_idem, canonRel_idem]
+    | .unrelate _ _ _ _ => by simp [canonStmt, canonName_idem, canonRel_idem]
+    | .unrelateU _ _ _ _ _ => by simp [canonStmt, canonName_idem, canonRel_idem]
     | .selFrom _ _ _ => by simp [canonStmt, lowerStr_idem]
     | .selFromW _ _ _ _ => by simp [canonStmt, lowerStr_idem, canonExpr_idem]
-    | .selRel _ _ _ _ => by simp [canonStmt, lowerStr_idem, canonExpr_idem]
-    | .selRelW _ _ _ _ _ => by simp [canonStmt, lowerStr_idem, canonExpr_idem]
+    | .selRel _ _ _ _ => by simp only [canonStmt, lowerStr_idem, canonExpr_idem, canonChain_idem]
+    | .selRelW _ _ _ _ _ => by simp only [canonStmt, lowerStr_idem, canonExpr_idem, canonChain_idem]
     | .forEach _ _ b => by simp [canonStmt, canonBlock_idem ctx b]
     | .while_ _ b => by simp [canonStmt, canonExpr_idem, canonBlock_idem ctx b]
     | .if_ _ b el els => by
         simp [canonStmt, canonExpr_idem, canonBlock_idem ctx b, canonElifs_idem ctx el, canonElse_idem ctx els]
     | .invoke _ => by simp [canonStmt, canonExpr_idem]
-    | .genEvt _ _ _ _ => by simp [canonStmt, canonParams_idem, canonTo_idem]
-    | .createEvt _ _ _ _ _ => by simp [canonStmt, canonParams_idem, canonTo_idem]
+    | .genEvt _ _ _ _ => by simp [canonStmt, canonParams_idem, canonTo_idem, canonMeaning_idem]
+    | .createEvt _ _ _ _ _ => by simp [canonStmt, canonParams_idem, canonTo_idem, canonMeaning_idem]
     | .genPre _ => by simp [canonStmt, canonExpr_idem]
   theorem canonBlock_idem (ctx : Ctx) : ∀ b : Block, canonBlock ctx (canonBlock ctx b) = canonBlock ctx b
     | .nil => by simp [canonBlock]
